@@ -32,7 +32,10 @@ func (s *spyWriter) Write(b []byte) (int, error) {
 // WriteString makes the spy an io.StringWriter, as net/http's own response writer is.
 func (s *spyWriter) WriteString(str string) (int, error) { return s.Write([]byte(str)) }
 
-func (s *spyWriter) Flush() { *s.events = append(*s.events, T("ufl")) }
+// flushSpy is a spyWriter whose underlying writer is an http.Flusher too; the plain one is not.
+type flushSpy struct{ *spyWriter }
+
+func (s flushSpy) Flush() { *s.events = append(*s.events, T("ufl")) }
 
 // hookPanic is the value a scripted panicking before function panics with.
 var hookPanic = "verif: before function panics"
@@ -46,7 +49,8 @@ func genC13(rng *rand.Rand, n int, tier string, emit func(*Sx)) {
 	codes := []int{100, 200, 201, 204, 301, 304, 404, 500, 999}
 	mk := func(method string, ops []*Sx) *Sx {
 		head := method == "HEAD"
-		return T("in", T("method", A(method)), T("head", B(head)), T("ops", ops...))
+		// one case in five runs on an underlying writer that cannot flush
+		return T("in", T("method", A(method)), T("head", B(head)), T("ops", ops...), T("plain", B(rng.Intn(5) == 0)))
 	}
 	if tier == "thorough" {
 		// every sequence of length <= 5 over a fixed op alphabet, for HEAD and GET
@@ -116,7 +120,11 @@ func runC13(in *Sx) *Sx {
 	method := in.Field("method").Args()[0].Atom
 	var events []*Sx
 	spy := &spyWriter{hdr: http.Header{}, events: &events}
-	w := flamego.NewResponseWriter(method, spy)
+	var under http.ResponseWriter = flushSpy{spy}
+	if p := in.Field("plain"); p != nil && p.Args()[0].Atom == "1" {
+		under = spy
+	}
+	w := flamego.NewResponseWriter(method, under)
 	var outs []*Sx
 	for _, op := range in.Field("ops").Args() {
 		events = nil
